@@ -20,6 +20,11 @@ impl CustomMsg for MyMsg {}
 pub struct MyQuery {}
 impl CustomQuery for MyQuery {}
 
+#[cosmwasm_schema::cw_serde]
+pub struct QAnswer {
+    pub nonce: String,
+}
+
 thread_local! {
     static NEXT: RefCell<Option<Response<Empty>>> = const { RefCell::new(None) };
     static SEEN: RefCell<Vec<Value>> = const { RefCell::new(Vec::new()) };
@@ -43,6 +48,8 @@ pub mod plain {
         fn echo_exec(&self, ctx: ExecCtx) -> Result<Response, Self::Error>;
         #[sv::msg(sudo)]
         fn echo_sudo(&self, ctx: SudoCtx) -> Result<Response, Self::Error>;
+        #[sv::msg(query)]
+        fn echo_query(&self, ctx: sylvia::ctx::QueryCtx) -> Result<super::QAnswer, Self::Error>;
     }
 }
 
@@ -55,6 +62,11 @@ impl plain::Plain for BCtr {
         saw("bridged_exec", &ctx.env, ctx.deps.storage, Some(&ctx.info), nonce);
         ctx.deps.storage.set(b"verif_mark", b"echo_exec");
         Ok(NEXT.with(|n| n.borrow_mut().take()).unwrap_or_default())
+    }
+    fn echo_query(&self, ctx: sylvia::ctx::QueryCtx) -> StdResult<QAnswer> {
+        let nonce = ctx.deps.querier.query_balance("bank", "nonce").map(|c| c.amount.to_string()).unwrap_or_else(|e| format!("ERR {e}"));
+        saw("bridged_query", &ctx.env, ctx.deps.storage, None, nonce.clone());
+        Ok(QAnswer { nonce })
     }
     fn echo_sudo(&self, ctx: sylvia::ctx::SudoCtx) -> StdResult<Response> {
         let nonce = ctx.deps.querier.query_balance("bank", "nonce").map(|c| c.amount.to_string()).unwrap_or_else(|e| format!("ERR {e}"));
@@ -200,6 +212,20 @@ fn main() {
         // 2. through the custom-typed contract's entry points (every 3rd response, to bound the run)
         if seq % 3 != 0 {
             continue;
+        }
+        if seq % 30 == 0 {
+            // a query of the bridged interface: deps carrying the custom query type are converted for the handler (every 30th response)
+            let (deps, env, _info, envj) = custom_deps(seq);
+            SEEN.with(|s| s.borrow_mut().clear());
+            let msg: sv::ContractQueryMsg = sylvia::cw_std::from_json(b"{\"echo_query\":{}}").unwrap();
+            let r = std::panic::catch_unwind(std::panic::AssertUnwindSafe(|| entry_points::query(deps.as_ref(), env, msg)));
+            let seen: Vec<Value> = SEEN.with(|s| s.borrow().clone());
+            let (verdict, answer) = match r {
+                Ok(Ok(b)) => ("ok", verif_rt::tag_text(b.as_slice())),
+                Ok(Err(_)) => ("err", json!({"t":"-"})),
+                Err(_) => ("panic", json!({"t":"-"})),
+            };
+            verif_rt::emit(json!({"ev":"BridgeQuery","seq":seq,"env":envj,"seen":seen,"verdict":verdict,"answer":answer}));
         }
         for via in ["exec", "sudo"] {
             let (mut deps, env, info, envj) = custom_deps(seq);
